@@ -191,9 +191,9 @@ def lean_check(pid, cfg, tier, log):
         rc, out, _ = run(["lake", "env", "lean", apath], cwd=LEAN, timeout=1800)
         # parse: "'name' depends on axioms: [a, b]" / "'name' does not depend on any axioms"
         found = {}
-        for m in re.finditer(r"'([^']+)' depends on axioms: \[([^\]]*)\]", out, flags=re.S):
+        for m in re.finditer(r"^'([^\n]+)' depends on axioms: \[([^\]]*)\]", out, flags=re.S | re.M):
             found[m.group(1)] = [a.strip() for a in m.group(2).replace("\n", " ").split(",") if a.strip()]
-        for m in re.finditer(r"'([^']+)' does not depend on any axioms", out):
+        for m in re.finditer(r"^'([^\n]+)' does not depend on any axioms", out, flags=re.M):
             found[m.group(1)] = []
         for n in names:
             if n not in found:
